@@ -1051,6 +1051,11 @@ def build(template_text: str, repo: str, unit: str) -> Built:
             src_sha = hashlib.sha256(text_of(sf.toks[item.start:item.end]).encode()).hexdigest()
             toks = rw_strip_comments(toks, rep)
             toks = rw_vis(toks, rep)
+            if a.get("attrs") != "keep" and kind in ("struct", "enum", "const", "type"):
+                fs = next((t for t in toks if t.kind not in (WS, COMMENT)), None)
+                if fs is not None and fs.kind == IDENT and fs.text in ("struct", "enum", "const", "type"):
+                    toks = [T("raw", "pub ")] + toks
+                    rep.append(("R13", "private item widened to pub"))
             if a.get("attrs") != "keep":
                 rep.append(("R13", "outer attributes / doc comments dropped"))
             if "R1" in ex.rules:
